@@ -30,6 +30,10 @@ def normalize (s : Lsm.State) : Lsm.State :=
   let d := ((List.range 16).map s.disk).toArray
   ⟨fun b => if h : b < m.size then m[b] else none, fun b => if h : b < d.size then d[b] else none⟩
 
+def normalizeRes (s : Residency.State) : Residency.State :=
+  let m := ((List.range 16).map s.buckets).toArray
+  { s with buckets := fun b => if h : b < m.size then m[b] else [] }
+
 def natOfBytes (l : List Nat) : Nat := l.foldl (fun a b => a * 256 + b) 0
 
 /-- 16-byte key → its 9-byte truncation as a big-endian number. -/
@@ -91,7 +95,7 @@ def keys16? (s : String) : Option (List Nat) :=
     | some k, some l => some (k :: l)
     | _, _ => none) (some [])
 
-def resOp? : List String → Option Residency.Op
+def resOp? : List String → Option Spec.ResidencySet.Op
   | ["mark", k] => (key16? k).map .mark
   | ["unmark", k] => (key16? k).map .unmark
   | ["span", k, _, _] => (key16? k).map .span
@@ -107,10 +111,10 @@ def resOp? : List String → Option Residency.Op
   | ["rload"] => some .load
   | _ => none
 
-def showRes : Residency.Out → String
+def showRes : Spec.ResidencySet.Out → String
   | .ok => "ok"
   | .bool b => if b then "true" else "false"
-  | .keys l => s!"n={l.length}" ++ String.join (l.map fun k => " " ++ hexFixed 32 k)
+  | .keys l => s!"n={l.length}" ++ String.join ((l.mergeSort (· ≤ ·)).map fun k => " " ++ hexFixed 32 k)
   | .num n => toString n
 
 def handle (s : St) (toks : List String) : St × String :=
@@ -134,7 +138,7 @@ def handle (s : St) (toks : List String) : St × String :=
       match resOp? toks with
       | some op =>
         let (r, o) := Residency.step s.rcfg s.res op
-        ({ s with res := r }, showRes o)
+        ({ s with res := normalizeRes r }, showRes o)
       | none => (s, "bad-op")
     else (s, "bad-op")
 
